@@ -20,7 +20,7 @@ for i in range(1, 21):
             'level_claimed': {
                 'category': 'other',
                 'text': c.get('text', 'static analysis: structural obligations on all paths; behavioural clauses listed as not decided'),
-                'design_ref': 'DESIGN.md section 5, ' + pid,
+                'design_ref': 'DESIGN.md section 6, ' + pid,
             },
             'level_note': c.get('note', 'Trusted: CPython ast; rule tables confirmed by reading; library axioms in DESIGN section 7.'),
             'technique': c.get('technique', 'static analysis (custom AST/CFG/dataflow rules)'),
